@@ -213,9 +213,17 @@ func (m *maxInflightWrapper) SetLimit(acquireResult *AcquireResult) bool {
 		atomic.StoreInt32(&m.acquiredMaxInflight, limit)
 		m.FlowControl.Resize(uint32(limit), 0)
 	} else {
+		// the refused limit comes from the server as well: keep it within [0, max]
+		limit := result.Limit
+		if limit > m.max {
+			limit = m.max
+		}
+		if limit < 0 {
+			limit = 0
+		}
 		atomic.StoreInt32(&m.overLimited, 1)
-		atomic.StoreInt32(&m.acquiredMaxInflight, result.Limit)
-		m.FlowControl.Resize(uint32(result.Limit), 0)
+		atomic.StoreInt32(&m.acquiredMaxInflight, limit)
+		m.FlowControl.Resize(uint32(limit), 0)
 	}
 
 	atomic.StoreInt64(&m.lastAcquireTime, acquireResult.requestTime)
